@@ -5,11 +5,20 @@ from ..cfg import witness
 from ..core import AnalysisError, u, walk_local
 from ..lib import construct, std_facts, def_of, copy_kind, returns_of, calls_of_node
 from .wrapper import WrapperModel
+from .common import allowed_stores, instance_state
 
 
 def run(ctx):
   prog = ctx.prog
   ctx.assume('T3', 'T4')
+  allowed_stores(ctx, 'C04.per-call', {
+      'config._make_gin_wrapper': {'_RENAMED_SELECTORS', '_OPERATIVE_CONFIG', '_OPERATIVE_CONFIG_LOCK', '_REGISTRY'},
+      'config._decorate_with_scope': set(),
+      'config.ConfigurableReference.__deepcopy__': set(),
+  }, 'references must be evaluated anew per call and run under exactly their scope; state kept between calls changes that')
+  instance_state(ctx, 'C04.deepcopy-shape', 'config.ConfigurableReference',
+                 {'_scoped_selector', '_evaluate', '_scopes', '_selector', '_configurable', '_scoped_configurable_fn'},
+                 'a reference object may not carry a cached result or other state between evaluations')
   w = WrapperModel(ctx)
   f, g, facts = w.f, w.g, w.facts
   con = construct(f)
@@ -138,9 +147,12 @@ def run(ctx):
       if isinstance(ce, ast.Call) and prog.resolve_call(sw, ce) == 'config.config_scope' and len(ce.args) == 1 \
           and u(ce.args[0]) == ds.params[1]:
         inner = [c for c in walk_local(wi) if isinstance(c, ast.Call) and isinstance(c.func, ast.Name) and c.func.id == 'fn_or_cls']
-        ok = bool(inner)
+        allc = [c for c in walk_local(sw.node) if isinstance(c, ast.Call) and isinstance(c.func, ast.Name) and c.func.id == 'fn_or_cls']
+        # every call of the wrapped configurable is inside the with, and the with is unconditional
+        uncond = wi.parent is sw.node
+        ok = bool(inner) and len(inner) == len(allc) and uncond
   ctx.check(ok, 'C04.scope', construct(sw), 'a scoped reference calls the configurable inside `with config_scope(<its scope components>)`',
-            'the scoping wrapper no longer enters config_scope with the reference\'s own scope list around the call', sw.loc(), instance='enter')
+            'the scoping wrapper does not (on every path) enter config_scope with the reference\'s own scope list around the call: under some ambient scopes the reference runs under the ambient scope instead of exactly its own', sw.loc(), instance='enter')
   init = cr.methods.get('initialize')
   star = [n for n in walk_local(init.node) if isinstance(n, ast.Assign) and isinstance(n.targets[0], ast.Tuple)
           and any(isinstance(e, ast.Starred) and u(e.value) == 'self._scopes' for e in n.targets[0].elts)
